@@ -136,10 +136,10 @@ func genContentType(t *tape.Tape) *refcbor.Item {
 
 // LayerOpts steers layer generation.
 type LayerOpts struct {
-	Alg      *int64 // alg value to place in the protected bucket (nil: none)
-	AlgText  string // alg as text instead (when Alg == nil and non-empty)
+	Alg      *int64        // alg value to place in the protected bucket (nil: none)
+	AlgText  string        // alg as text instead (when Alg == nil and non-empty)
 	AlgItem  *refcbor.Item // any item as the alg value (when Alg == nil and AlgText == "")
-	MaxExtra int    // upper bound on additional labels per bucket
+	MaxExtra int           // upper bound on additional labels per bucket
 	NoCrit   bool
 	Steer    bool // steer the encoded protected size across 23/24, 255/256 (and 65535/65536 in thorough runs)
 	Big      bool // allow the 64 KiB boundary
